@@ -1,5 +1,8 @@
 CONSTANTS
   MaxLen = 3
   ContOpts <- ContOptsMain
+  FullLen = 2
+  NShort = 0
+  NLong = 420
 INIT Init
 NEXT Next
